@@ -96,9 +96,10 @@ func c18Run(p c18Plan, seed string) (opsDone map[string]int64, inconclusive stri
 		ch := w.Craft(w.RogueWallet(1), w.MakeTx(2, 3, spice.Melange{}, 5), par.Hash, par.Hash, 0)
 		orphans = append(orphans, [2]*accountant.Vertex{par, ch})
 	}
-	var txHashes []ref.Hash
-	for _, v := range snap.Live {
+	var txHashes, oldHashes []ref.Hash
+	for h, v := range snap.Live {
 		txHashes = append(txHashes, v.Transaction.Hash)
+		oldHashes = append(oldHashes, h) // vertices that exist before the concurrent phase: a truncation will move most of them
 	}
 	ctx, cancel := context.WithTimeout(context.Background(), time.Duration(p.Millis)*time.Millisecond)
 	defer cancel()
@@ -106,7 +107,7 @@ func c18Run(p c18Plan, seed string) (opsDone map[string]int64, inconclusive stri
 	for _, k := range c18Ops {
 		done[k] = &atomic.Int64{}
 	}
-	var feedIdx, orphanIdx atomic.Int64
+	var feedIdx, orphanIdx, sinkInt atomic.Int64
 	var truncOnce sync.Once
 	var wg sync.WaitGroup
 	for gi, script := range p.Scripts {
@@ -147,11 +148,21 @@ func c18Run(p c18Plan, seed string) (opsDone map[string]int64, inconclusive stri
 				case "read-tx":
 					book.ReadTransactionByHash(ctx, txHashes[ctr%len(txHashes)])
 				case "read-vertex":
-					book.ReadVertex(ctx, feed[ctr%len(feed)].Hash)
+					if ctr%2 == 0 && len(oldHashes) > 0 {
+						if v, err := book.ReadVertex(ctx, oldHashes[(ctr/2)%len(oldHashes)]); err == nil {
+							sinkInt.Add(v.CreatedAt.UnixNano() + v.Transaction.CreatedAt.UnixNano() + int64(v.Weight))
+						}
+					} else {
+						book.ReadVertex(ctx, feed[ctr%len(feed)].Hash)
+					}
 				case "stream":
 					n := 0
-					for range book.StreamDAG(ctx) {
+					for v := range book.StreamDAG(ctx) {
 						n++
+						if v != nil {
+							// a joining node reads what it is handed, after the serving node has released its lock
+							sinkInt.Add(v.CreatedAt.UnixNano() + v.Transaction.CreatedAt.UnixNano() + int64(v.Weight) + int64(len(v.Signature)))
+						}
 					}
 				case "retry":
 					book.VerifRetryOne(ctx)
